@@ -40,11 +40,11 @@ func identRole(id *ast.Ident, parent ast.Node, info *types.Info, pkg *types.Pack
 		}
 		return "selector", ""
 	}
-	if _, ok := info.Defs[id]; ok {
-		return "declaring", ""
-	}
-	obj, ok := info.Uses[id]
+	obj, ok := info.Uses[id] // an embedded field's identifier is both a definition and a use of the type
 	if !ok {
+		if _, ok := info.Defs[id]; ok {
+			return "declaring", ""
+		}
 		return "other", ""
 	}
 	switch o := obj.(type) {
@@ -61,7 +61,10 @@ func identRole(id *ast.Ident, parent ast.Node, info *types.Info, pkg *types.Pack
 		return "universe", ""
 	}
 	if obj.Pkg() == pkg {
-		return "local", stripVendorPath(obj.Pkg().Path())
+		if obj.Parent() == pkg.Scope() {
+			return "local", stripVendorPath(obj.Pkg().Path())
+		}
+		return "localvar", ""
 	}
 	if obj.Parent() == obj.Pkg().Scope() {
 		return "dotuse", stripVendorPath(obj.Pkg().Path())
@@ -76,10 +79,16 @@ type resolveRec struct {
 	Types   string `json:"types"`
 	Ast     string `json:"ast"`
 	Name    string `json:"name"`
+	RL      bool   `json:"rl"`
 }
 
 // c09File decorates one type-checked file with both resolvers and records every identifier.
 func c09File(c *Ctx, key string, fset *token.FileSet, af *ast.File, info *types.Info, pkg *types.Package, localPath string, names map[string]string, compareAst bool, out *ndjson) {
+	c09FileRL(c, key, fset, af, info, pkg, localPath, names, compareAst, false, out)
+	c09FileRL(c, key+"|ResolveLocalPath", fset, af, info, pkg, localPath, names, false, true, out)
+}
+
+func c09FileRL(c *Ctx, key string, fset *token.FileSet, af *ast.File, info *types.Info, pkg *types.Package, localPath string, names map[string]string, compareAst bool, resolveLocal bool, out *ndjson) {
 	// parents
 	parents := map[*ast.Ident]ast.Node{}
 	var stack []ast.Node
@@ -95,6 +104,7 @@ func c09File(c *Ctx, key string, fset *token.FileSet, af *ast.File, info *types.
 		return true
 	})
 	dt := decorator.NewDecoratorWithImports(fset, localPath, gotypes.New(info.Uses))
+	dt.ResolveLocalPath = resolveLocal
 	var dft *dst.File
 	var err error
 	if msg := guard(func() { dft, err = dt.DecorateFile(af) }); msg != "" || err != nil {
@@ -119,7 +129,7 @@ func c09File(c *Ctx, key string, fset *token.FileSet, af *ast.File, info *types.
 		if role == "local" {
 			objPath = localPath
 		}
-		rec := resolveRec{Role: role, ObjPath: objPath, Local: localPath, Ast: "<n/a>", Name: id.Name}
+		rec := resolveRec{Role: role, ObjPath: objPath, Local: localPath, Ast: "<n/a>", Name: id.Name, RL: resolveLocal}
 		if dn, ok := dt.Dst.Nodes[id].(*dst.Ident); ok {
 			rec.Types = dn.Path
 			if role == "pkgname" || role == "selector" && false {
